@@ -67,7 +67,7 @@ Section Run.
 End Run.
 
 (* ---- behaviour DSL shared with the harness (progspec.py) ----------------------------------- *)
-Inductive beh := BOk | BNone | BInt (z : Z) | BStr (s : nat) | BRecur (k : nat) | BRecEven (k : nat).
+Inductive beh := BOk | BNone | BInt (z : Z) | BStr (s : nat) | BRecur (k : nat) | BRecEven (k : nat) | BStrEp (ls : list nat).
 Record nbeh := { nb_beh : beh; nb_fails : list (option exc_cls) }.
 
 Fixpoint last_or {A} (l : list A) (d : A) : A :=
@@ -93,6 +93,8 @@ Definition dsl_body (bs : list nbeh) (i : nat) (kw : kwargs) (att : nat) : outco
       | BStr s => OVal (VStr s)
       | BRecur k => let ep := find_epoch_kw kw in
                     if Nat.ltb ep k then OVal (VRec (VInt (Z.of_nat (S ep)))) else OVal (VNode i kw)
+      (* a label that depends on the iteration: the ep-th of the list (the last one beyond its end) *)
+      | BStrEp ls => OVal (VStr (nth (find_epoch_kw kw) ls (last ls 0)))
       (* asks for another iteration whenever the largest iteration number it can see is even (and below k): lets an
          inner recurrent subgraph iterate again in every pass of an outer one *)
       | BRecEven k => let ep := find_epoch_kw kw in
